@@ -1,8 +1,11 @@
 package eventbus
 
-import "sync"
+import (
+	"context"
+	"sync"
+)
 
-//verif:entry property=C07 tier=both bounds="one Sequential handler (enter; yield; exit; the first invocation may panic) and G concurrent synchronous publishers of one event each; every interleaving within the preemption bound" cover="done" G_quick=2 G_thorough=3 preempt_quick=2 preempt_thorough=3 race=on
+//verif:entry property=C07 tier=both bounds="one Sequential handler (enter; yield; exit; the first invocation may panic) and G concurrent synchronous publishers of one event each (typed or through Publish[any]); every interleaving within the preemption bound" cover="done" G_quick=2 G_thorough=3 preempt_quick=2 preempt_thorough=3 race=on
 func harnessC07NoOverlapSync() {
 	G := vParam("G", 2)
 	bus := New()
@@ -34,9 +37,14 @@ func harnessC07NoOverlapSync() {
 	for g := 0; g < G; g++ {
 		wg.Add(1)
 		n := g
+		viaAny := vBool() // published through an interface-typed parameter (reflection dispatch)
 		go func() {
 			defer wg.Done()
-			Publish(bus, evA{N: n})
+			if viaAny {
+				Publish[any](bus, evA{N: n})
+			} else {
+				Publish(bus, evA{N: n})
+			}
 		}()
 	}
 	wg.Wait()
@@ -81,5 +89,41 @@ func harnessC07AsyncOrder() {
 		}
 	}
 	vAssertK(inOrder, "async-sequential-preserves-publish-order", "KF-C07-async-order", true)
+	vCover("done")
+}
+
+//verif:entry property=C07 tier=both bounds="SubscribeWithReplay with a Sequential handler over two stored events, racing with one live publisher; every interleaving within the preemption bound; the handler must never overlap itself" cover="done" preempt_quick=2 preempt_thorough=3 race=on
+func harnessC07ReplayAndLive() {
+	mem := NewMemoryStore()
+	bus := New(WithStore(mem))
+	Publish(bus, evA{N: 1})
+	Publish(bus, evA{N: 2})
+	var mu sync.Mutex
+	inside, maxInside := 0, 0
+	h := func(e evA) {
+		mu.Lock()
+		inside++
+		if inside > maxInside {
+			maxInside = inside
+		}
+		mu.Unlock()
+		vYield()
+		mu.Lock()
+		inside--
+		mu.Unlock()
+	}
+	var wg sync.WaitGroup
+	wg.Add(2)
+	go func() {
+		defer wg.Done()
+		SubscribeWithReplay(context.Background(), bus, "sub", h, Sequential())
+	}()
+	go func() {
+		defer wg.Done()
+		Publish(bus, evA{N: 3})
+	}()
+	wg.Wait()
+	vJoinAll()
+	vAssert(maxInside <= 1, "sequential-invocations-never-overlap")
 	vCover("done")
 }
